@@ -135,6 +135,49 @@ func getIdx(ring receive.Hashring, idx map[string]int, s seriesSpec, n int) (out
 	return strconv.Itoa(i)
 }
 
+// reportTie reports two sections of the REAL ring with the same hash: sort.Sort is not stable and
+// GetN takes the first section with hash >= v, so the placement would not be a function of the
+// configuration (class hash-tie).  Different addresses never collide on the unchanged code.
+func reportTie(v *vctx, eps []epSpec, secs []receive.VerifSection) bool {
+	for i := 1; i < len(secs); i++ {
+		if secs[i-1].Hash == secs[i].Hash {
+			a, b := secs[i-1].EndpointIndex, secs[i].EndpointIndex
+			an, bn := "?", "?"
+			if int(a) < len(eps) && int(b) < len(eps) {
+				an, bn = eps[a].addr, eps[b].addr
+			}
+			v.Violation("hash-tie", fmt.Sprintf("sections of endpoints %q and %q have the same hash %d: the order of equal hashes is up to the unstable sort, placement is not determined by the configuration", an, bn, secs[i].Hash))
+			return true
+		}
+	}
+	return false
+}
+
+// checkSectionHashes compares the hashes of the real ring's sections with the op line's.
+func checkSectionHashes(v *vctx, eps []epSpec, secs []receive.VerifSection) bool {
+	got := make([][]uint64, len(eps))
+	for _, s := range secs {
+		if int(s.EndpointIndex) >= len(eps) {
+			v.Count("section-hash-differs-from-op-line")
+			return false
+		}
+		got[s.EndpointIndex] = append(got[s.EndpointIndex], s.Hash)
+	}
+	for i, e := range eps {
+		want := append([]uint64(nil), e.hashes...)
+		sort.Slice(want, func(a, b int) bool { return want[a] < want[b] })
+		g := got[i]
+		sort.Slice(g, func(a, b int) bool { return g[a] < g[b] })
+		if fmt.Sprint(want) != fmt.Sprint(g) {
+			// not a property violation by itself: the model was given xxhash(address:i) and cannot follow
+			// a ring hashed differently (the correspondence and the section-hash fact report that)
+			v.Count("section-hash-differs-from-op-line")
+			return false
+		}
+	}
+	return true
+}
+
 func runKet(v *vctx, tok []string) *ketRun {
 	k := &ketRun{status: "bad-op", answer: "bad-op"}
 	if len(tok) != 6 || tok[0] != "ket" {
@@ -172,35 +215,19 @@ func runKet(v *vctx, tok []string) *ketRun {
 		return k
 	}
 	k.ring, k.secs = ring, secs
+	if reportTie(v, eps, secs) {
+		k.status, k.answer = "tie", "tie"
+		return k
+	}
 	// the hashes the model was given must be the hashes of the real sections
-	got := make([][]uint64, len(eps))
-	for _, s := range secs {
-		if int(s.EndpointIndex) >= len(eps) {
-			k.status, k.answer = "hash-mismatch", "hash-mismatch"
-			v.Violation("harness-hash-input", "section with an endpoint index outside the endpoint list")
-			return k
-		}
-		got[s.EndpointIndex] = append(got[s.EndpointIndex], s.Hash)
-		if s.AZ != eps[s.EndpointIndex].az {
-			v.Violation("section-az", fmt.Sprintf("section of endpoint %d carries zone %q, endpoint has %q", s.EndpointIndex, s.AZ, eps[s.EndpointIndex].az))
+	for _, sec := range secs {
+		if int(sec.EndpointIndex) < len(eps) && sec.AZ != eps[sec.EndpointIndex].az {
+			v.Violation("section-az", fmt.Sprintf("section of endpoint %d carries zone %q, endpoint has %q", sec.EndpointIndex, sec.AZ, eps[sec.EndpointIndex].az))
 		}
 	}
-	for i, e := range eps {
-		want := append([]uint64(nil), e.hashes...)
-		sort.Slice(want, func(a, b int) bool { return want[a] < want[b] })
-		g := got[i]
-		sort.Slice(g, func(a, b int) bool { return g[a] < g[b] })
-		if fmt.Sprint(want) != fmt.Sprint(g) {
-			k.status, k.answer = "hash-mismatch", "hash-mismatch"
-			v.Violation("harness-hash-input", fmt.Sprintf("section hashes of endpoint %d differ from the op line", i))
-			return k
-		}
-	}
-	for i := 1; i < len(secs); i++ {
-		if secs[i-1].Hash == secs[i].Hash {
-			k.status, k.answer = "tie", "tie"
-			return k
-		}
+	if !checkSectionHashes(v, eps, secs) {
+		k.status, k.answer = "hash-mismatch", "hash-mismatch"
+		return k
 	}
 	idx := map[string]int{}
 	for i, e := range eps {
@@ -269,8 +296,11 @@ func pickZoneNames(r *hlib.Rand, n int) []string {
 	return out
 }
 
-var addrStyles = 4
+var addrStyles = 10
 
+// genAddr draws the address of endpoint number i of a ring.  Styles 4..9 are the forms real
+// configurations use — host:port with several endpoints on one host, URLs, IPv4 / IPv6 literals,
+// bare names — and deliberately let endpoints share a host and differ only in the port.
 func genAddr(r *hlib.Rand, style, i int) string {
 	switch style {
 	case 0:
@@ -279,13 +309,52 @@ func genAddr(r *hlib.Rand, style, i int) string {
 		return fmt.Sprintf("10.%d.%d.%d:10901", r.Intn(256), r.Intn(256), i)
 	case 2:
 		return fmt.Sprintf("thanos-receive-%d.thanos-receive.ns.svc.cluster.local:10901", i)
-	default:
+	case 3:
 		return fmt.Sprintf("%c%x", 'a'+rune(i%26), r.Intn(1<<20)) + strconv.Itoa(i)
+	case 4: // up to three endpoints per host, different ports
+		return fmt.Sprintf("receive-%d.example.org:%d", i/3, 10901+i%3)
+	case 5: // URLs, two endpoints per host
+		return fmt.Sprintf("http://rcv-%d.internal:%d", i/2, 19291+i%2)
+	case 6: // IPv4 literals, four ports per address
+		return fmt.Sprintf("192.168.7.%d:%d", 10+i/4, 10900+i%4)
+	case 7: // IPv6 literals, two ports per address
+		return fmt.Sprintf("[fd00::%x]:%d", 1+i/2, 10901+i%2)
+	case 8: // everything on one host
+		return fmt.Sprintf("localhost:%d", 10901+i)
+	default: // a mixture: bare names, host:port on a shared host, IPv6 without brackets
+		switch i % 3 {
+		case 0:
+			return fmt.Sprintf("ingest-%d", i)
+		case 1:
+			return fmt.Sprintf("shared-host:%d", 10901+i)
+		}
+		return fmt.Sprintf("2001:db8::%x", i+1)
 	}
 }
 
 // materialise turns a layout into endpoint specs (shuffled over the zones), with distinct addresses.
+// The op line's hypothesis "no two sections have the same hash" is checked for every generated
+// ring (a violation would be an xxhash collision between different "address:i" strings).
 func materialise(r *hlib.Rand, l layout, spn int) []epSpec {
+	for {
+		eps := materialiseOnce(r, l, spn)
+		seen := map[uint64]bool{}
+		tie := false
+		for _, e := range eps {
+			for _, h := range e.hashes {
+				if seen[h] {
+					tie = true
+				}
+				seen[h] = true
+			}
+		}
+		if !tie {
+			return eps
+		}
+	}
+}
+
+func materialiseOnce(r *hlib.Rand, l layout, spn int) []epSpec {
 	names := pickZoneNames(r, len(l))
 	style := r.Intn(addrStyles)
 	var eps []epSpec
